@@ -333,6 +333,8 @@ pub struct Builder {
 pub struct LeafSpec {
     pub script: Vec<Step>,
     pub always_ready: bool,
+    /// the stream's script goes on after its first `End` (a non-fused stream that is polled again after `None`)
+    pub resumable: bool,
 }
 
 impl Builder {
@@ -353,6 +355,7 @@ impl Builder {
         w(|w| {
             let mut c = Child::leaf(if stream { Kind::LeafStr } else { Kind::LeafFut }, spec.script);
             c.always_ready = spec.always_ready;
+            c.resumable = spec.resumable;
             c.parent = Some(parent);
             if c.never {
                 w.st.never_children += 1;
